@@ -51,6 +51,17 @@ class Evaluator:
             return "%s[%d]" % (base, idx)
         if n["k"] == "UnaryOperator" and n.get("op") == "*":
             return "*" + render(f, n["c"][0])
+        if getattr(self, "heap_mode", False) and n["k"] == "MemberExpr" and n.get("arrow") and n.get("base") is not None:
+            base = f.strip(f.node(n["base"]))
+            if base is not None and base["k"] != "CXXThisExpr":
+                try:
+                    v = self.ev(f.node(n["base"]))
+                except Unknown:
+                    v = None
+                if isinstance(v, int):
+                    if v == 0:
+                        raise Unknown("null dereference: %s" % render(f, n))
+                    return "@%d.%s" % (v, n["name"])
         return render(f, n)
 
     def ev(self, n):
@@ -169,7 +180,8 @@ class Evaluator:
             nm = self.prog.callee_name(f, n)
             if nm in self.calls:
                 args = []
-                if k == "CXXMemberCallExpr" and n.get("obj") is not None and getattr(self, "pass_object", False):
+                ob_ = f.strip(f.node(n["obj"])) if (k == "CXXMemberCallExpr" and n.get("obj") is not None) else None
+                if ob_ is not None and ob_["k"] != "CXXThisExpr" and getattr(self, "pass_object", False):
                     try:
                         args.append(self.ev(f.node(n["obj"])))
                     except Unknown:
